@@ -195,6 +195,19 @@ def main():
     except subprocess.TimeoutExpired as e:
         print(f"timeout: {e}", file=sys.stderr)
         sys.exit(2)
+    except Exception:  # noqa: the harness could not be carried through on this tree
+        import traceback
+        tb = traceback.format_exc()
+        print(tb, file=sys.stderr)
+        repo = os.environ.get("VERIF_REPO", "/repo")
+        if f'File "{repo}/' not in tb:
+            # nothing of the implementation on the stack: a defect of the machinery itself
+            sys.exit(2)
+        # the implementation raised where the correspondence harness relies on it answering: the
+        # correspondence no longer checks (no property-level failing input was isolated)
+        ctx.disagree("harness: the implementation raised inside a step every case depends on",
+                     {"traceback": tb[-4000:]}, "raised", None)
+        rc = ctx.finish()
     sys.exit(rc)
 
 
